@@ -694,6 +694,12 @@ pub open spec fn next_sendable(s: ProtocolState, mode: ProtocolQueueServiceMode)
     else { None }
 }
 
+// C08 "work it is able to perform - a sendable queued operation": besides a dequeuable head this includes the operation that
+// is already half-written (its packet did not fit the output space offered so far) - it must be continued, not stranded
+pub open spec fn has_sendable_work(s: ProtocolState, mode: ProtocolQueueServiceMode) -> bool {
+    !s.pending_write_completion && (s.current_operation is Some || next_sendable(s, mode) is Some)
+}
+
 pub open spec fn opt_instant_min(a: Option<Instant>, b: Option<Instant>) -> Option<Instant> {
     match (a, b) {
         (Some(x), Some(y)) => if x.nanos < y.nanos { Some(x) } else { Some(y) },
@@ -778,7 +784,7 @@ impl ProtocolState {
 //@fn gneiss-mqtt/src/protocol.rs ProtocolState::get_next_service_timepoint_protocol_queue props=C08
     ensures
         // no lost wake-up and no idle spinning for the queues: "service me now" <=> a dequeue would succeed
-        r == (if next_sendable(*self, mode) is Some { Some(self.current_time) } else { None }),
+        r == (if has_sendable_work(*self, mode) { Some(self.current_time) } else { None }),
 //@end
 
 //@fn gneiss-mqtt/src/protocol.rs ProtocolState::get_next_service_timepoint_disconnected props=C08
@@ -789,8 +795,8 @@ impl ProtocolState {
     requires self.connack_timeout_timepoint is Some,
     ensures r is Some,
         opt_le(r, self.connack_timeout_timepoint->Some_0),         // the establishment deadline is never slept through
-        next_sendable(*self, ProtocolQueueServiceMode::HighPriorityOnly) is Some ==> opt_le(r, self.current_time),
-        r == opt_instant_min(if next_sendable(*self, ProtocolQueueServiceMode::HighPriorityOnly) is Some { Some(self.current_time) } else { None }, self.connack_timeout_timepoint),
+        has_sendable_work(*self, ProtocolQueueServiceMode::HighPriorityOnly) ==> opt_le(r, self.current_time),
+        r == opt_instant_min(if has_sendable_work(*self, ProtocolQueueServiceMode::HighPriorityOnly) { Some(self.current_time) } else { None }, self.connack_timeout_timepoint),
 //@end
 
 //@fn gneiss-mqtt/src/protocol.rs ProtocolState::get_next_service_timepoint_connected props=C08,C14,C18
@@ -798,13 +804,13 @@ impl ProtocolState {
         self.ping_timeout_timepoint matches Some(t) ==> opt_le(r, t),
         forall|x: Reverse<OperationTimeoutRecord>| #[trigger] heap_view(self.operation_ack_timeouts).count(x) > 0 ==> opt_le(r, x.0.timeout),
         !self.pending_write_completion ==> (self.next_ping_timepoint matches Some(t) ==> opt_le(r, t)),
-        next_sendable(*self, ProtocolQueueServiceMode::All) is Some ==> opt_le(r, self.current_time),
+        has_sendable_work(*self, ProtocolQueueServiceMode::All) ==> opt_le(r, self.current_time),
         // nothing due => no wake-up
         (self.ping_timeout_timepoint is None && heap_view(self.operation_ack_timeouts) == Multiset::<Reverse<OperationTimeoutRecord>>::empty()
-            && (self.pending_write_completion || (self.next_ping_timepoint is None && next_sendable(*self, ProtocolQueueServiceMode::All) is None))) ==> r is None,
+            && (self.pending_write_completion || (self.next_ping_timepoint is None && !has_sendable_work(*self, ProtocolQueueServiceMode::All)))) ==> r is None,
         // never earlier than something that is actually due
         r matches Some(t) ==> (self.ping_timeout_timepoint == Some(t) || (!self.pending_write_completion && self.next_ping_timepoint == Some(t))
-            || (!self.pending_write_completion && t == self.current_time && next_sendable(*self, ProtocolQueueServiceMode::All) is Some)
+            || (t == self.current_time && has_sendable_work(*self, ProtocolQueueServiceMode::All))
             || (exists|x: Reverse<OperationTimeoutRecord>| heap_view(self.operation_ack_timeouts).count(x) > 0 && x.0.timeout == t)),
 //@@at bodystart
         broadcast use ax_ord_rel_reverse, ax_ord_rel_spec;
@@ -813,7 +819,7 @@ impl ProtocolState {
 //@fn gneiss-mqtt/src/protocol.rs ProtocolState::get_next_service_timepoint_pending_disconnect props=C08,C18
     ensures
         forall|x: Reverse<OperationTimeoutRecord>| #[trigger] heap_view(self.operation_ack_timeouts).count(x) > 0 ==> opt_le(r, x.0.timeout),
-        next_sendable(*self, ProtocolQueueServiceMode::HighPriorityOnly) is Some ==> opt_le(r, self.current_time),
+        has_sendable_work(*self, ProtocolQueueServiceMode::HighPriorityOnly) ==> opt_le(r, self.current_time),
 //@@at bodystart
         broadcast use ax_ord_rel_reverse, ax_ord_rel_spec;
 //@end
@@ -1455,56 +1461,44 @@ impl ProtocolState {
         *final(self) == (ProtocolState { operations: final(self).operations, ..*old(self) }),
         ops_same_except_ss(old(self).operations@, final(self).operations@),
         old(self).config.post_reconnect_queue_drain_policy != PostReconnectQueueDrainPolicy::OneAtATime ==> final(self).operations@ =~= old(self).operations@,
-        // C09: exactly the operations the disconnection interrupts (sent, not yet acknowledged) take part in the one-at-a-time drain
+        // C09: every operation this disconnection interrupts (sent, not yet acknowledged) takes part in the one-at-a-time drain, and an
+        // operation interrupted earlier stays part of it "until every operation that the disconnection had interrupted has been resolved"
         old(self).config.post_reconnect_queue_drain_policy == PostReconnectQueueDrainPolicy::OneAtATime ==>
             forall|k: u64| #[trigger] final(self).operations@.contains_key(k) ==>
-                final(self).operations@[k].slow_start_ack_value == (if awaiting_ack(*old(self), k) { 1u32 } else { 0u32 }),
+                final(self).operations@[k].slow_start_ack_value == (if awaiting_ack(*old(self), k) { 1u32 } else { old(self).operations@[k].slow_start_ack_value }),
 //@@loop 0 iter=it
-            invariant operations@.len() == it.index@,
-                it.seq().unref().to_set() == self.operations@.dom(),
-                operations@ =~= it.seq().unref().take(it.index@ as int),
-                it.index@ == it.seq().len() ==> operations@ =~= it.seq().unref(),
-//@@loop 1 iter=it
-            invariant
-                *self == (ProtocolState { operations: self.operations, ..*old(self) }),
-                ops_same_except_ss(old(self).operations@, self.operations@),
-                it.seq().to_set() =~= old(self).operations@.dom(),
-                forall|j: int| 0 <= j < it.index@ ==> self.operations@[#[trigger] it.seq()[j]].slow_start_ack_value == 0,
-                forall|k: u64| #[trigger] self.operations@.contains_key(k) ==> self.operations@[k].slow_start_ack_value <= 1,
-                it.index@ == it.seq().len() ==> forall|k: u64| #[trigger] self.operations@.contains_key(k) ==> self.operations@[k].slow_start_ack_value == 0,
-//@@loop 2 iter=it
             invariant pending_non_publish_operations@.len() == it.index@,
                 it.seq().unref().to_set() == self.pending_non_publish_operations@.values(),
                 pending_non_publish_operations@ =~= it.seq().unref().take(it.index@ as int),
                 it.index@ == it.seq().len() ==> pending_non_publish_operations@ =~= it.seq().unref(),
-//@@loop 3 iter=it
+//@@loop 1 iter=it
             invariant
                 *self == (ProtocolState { operations: self.operations, ..*old(self) }),
-                ops_same_except_ss(old(self).operations@, self.operations@),
+                ops_same_except_ss(old(self).operations@, self.operations@), old(self).wf_tables(),
                 it.seq().to_set() =~= old(self).pending_non_publish_operations@.values(),
                 forall|j: int| 0 <= j < it.seq().len() ==> self.operations@.contains_key(#[trigger] it.seq()[j]),
                 forall|k: u64| #[trigger] self.operations@.contains_key(k) ==> self.operations@[k].slow_start_ack_value <= 1,
-                forall|k: u64| #[trigger] self.operations@.contains_key(k) && !it.seq().contains(k) ==> self.operations@[k].slow_start_ack_value == 0,
+                forall|k: u64| #[trigger] self.operations@.contains_key(k) && !it.seq().contains(k) ==> self.operations@[k].slow_start_ack_value == old(self).operations@[k].slow_start_ack_value,
                 forall|j: int| 0 <= j < it.index@ ==> self.operations@[#[trigger] it.seq()[j]].slow_start_ack_value == 1,
                 it.index@ == it.seq().len() ==> forall|k: u64| #[trigger] self.operations@.contains_key(k) ==>
-                    self.operations@[k].slow_start_ack_value == (if old(self).pending_non_publish_operations@.values().contains(k) { 1u32 } else { 0u32 }),
-//@@loop 4 iter=it
+                    self.operations@[k].slow_start_ack_value == (if old(self).pending_non_publish_operations@.values().contains(k) { 1u32 } else { old(self).operations@[k].slow_start_ack_value }),
+//@@loop 2 iter=it
             invariant pending_publish_operations@.len() == it.index@,
                 it.seq().unref().to_set() == self.pending_publish_operations@.values(),
                 pending_publish_operations@ =~= it.seq().unref().take(it.index@ as int),
                 it.index@ == it.seq().len() ==> pending_publish_operations@ =~= it.seq().unref(),
-//@@loop 5 iter=it
+//@@loop 3 iter=it
             invariant
                 *self == (ProtocolState { operations: self.operations, ..*old(self) }),
-                ops_same_except_ss(old(self).operations@, self.operations@),
+                ops_same_except_ss(old(self).operations@, self.operations@), old(self).wf_tables(),
                 it.seq().to_set() =~= old(self).pending_publish_operations@.values(),
-                forall|j: int| 0 <= j < it.seq().len() ==> self.operations@.contains_key(#[trigger] it.seq()[j]),
+                forall|j: int| 0 <= j < it.seq().len() ==> self.operations@.contains_key(#[trigger] it.seq()[j]) && !old(self).pending_non_publish_operations@.values().contains(it.seq()[j]),
                 forall|k: u64| #[trigger] self.operations@.contains_key(k) ==> self.operations@[k].slow_start_ack_value <= 1,
                 forall|k: u64| #[trigger] self.operations@.contains_key(k) && !it.seq().contains(k) ==>
-                    self.operations@[k].slow_start_ack_value == (if old(self).pending_non_publish_operations@.values().contains(k) { 1u32 } else { 0u32 }),
+                    self.operations@[k].slow_start_ack_value == (if old(self).pending_non_publish_operations@.values().contains(k) { 1u32 } else { old(self).operations@[k].slow_start_ack_value }),
                 forall|j: int| 0 <= j < it.index@ ==> self.operations@[#[trigger] it.seq()[j]].slow_start_ack_value == 1,
                 it.index@ == it.seq().len() ==> forall|k: u64| #[trigger] self.operations@.contains_key(k) ==>
-                    self.operations@[k].slow_start_ack_value == (if awaiting_ack(*old(self), k) { 1u32 } else { 0u32 }),
+                    self.operations@[k].slow_start_ack_value == (if awaiting_ack(*old(self), k) { 1u32 } else { old(self).operations@[k].slow_start_ack_value }),
 //@@at before "for id in it: pending_non_publish_operations"
         proof {
             lemma_values_tracked(*old(self));
@@ -1518,7 +1512,8 @@ impl ProtocolState {
         proof {
             lemma_values_tracked(*old(self));
             assert(pending_publish_operations@.to_set() =~= old(self).pending_publish_operations@.values());
-            assert forall|j: int| 0 <= j < pending_publish_operations@.len() implies self.operations@.contains_key(#[trigger] pending_publish_operations@[j]) by {
+            assert forall|j: int| 0 <= j < pending_publish_operations@.len() implies self.operations@.contains_key(#[trigger] pending_publish_operations@[j])
+                && !old(self).pending_non_publish_operations@.values().contains(pending_publish_operations@[j]) by {
                 assert(pending_publish_operations@.to_set().contains(pending_publish_operations@[j]));
                 assert(old(self).operations@.contains_key(pending_publish_operations@[j]));
             }
@@ -2188,8 +2183,8 @@ impl ProtocolState {
         *final(self) == (ProtocolState { current_time: *current_time, elapsed_time_ms: final(self).elapsed_time_ms, ..*old(self) }),
         (old(self).state == ProtocolStateType::Halted || old(self).state == ProtocolStateType::Disconnected) ==> r is None,
         // a sendable operation => "service me now" (Connected) / before CONNACK for the CONNECT
-        (old(self).state == ProtocolStateType::Connected && next_sendable(*final(self), ProtocolQueueServiceMode::All) is Some) ==> opt_le(r, *current_time),
-        (old(self).state == ProtocolStateType::PendingConnack && next_sendable(*final(self), ProtocolQueueServiceMode::HighPriorityOnly) is Some) ==> opt_le(r, *current_time),
+        (old(self).state == ProtocolStateType::Connected && has_sendable_work(*final(self), ProtocolQueueServiceMode::All)) ==> opt_le(r, *current_time),
+        (old(self).state == ProtocolStateType::PendingConnack && has_sendable_work(*final(self), ProtocolQueueServiceMode::HighPriorityOnly)) ==> opt_le(r, *current_time),
         (old(self).state == ProtocolStateType::Connected && old(self).ping_timeout_timepoint is Some) ==> opt_le(r, old(self).ping_timeout_timepoint->Some_0),
         (old(self).state == ProtocolStateType::Connected && !old(self).pending_write_completion && old(self).next_ping_timepoint is Some) ==> opt_le(r, old(self).next_ping_timepoint->Some_0),
         (old(self).state == ProtocolStateType::PendingConnack) ==> opt_le(r, old(self).connack_timeout_timepoint->Some_0),
